@@ -914,6 +914,7 @@ def gen_readonly(seed, idbase=0, nb=("BucketsSize", 16), state="dense", kt="byte
     s.op("decode", dir="d", name="m", native=True)
     s.op("open_db", db=0, dir="d")
     s.op("map", h=1, db=0, name="m", kt=kt)
+    walked = set()
     for i in range(nro):
         r = rng.random()
         k = rng.choice(keys + absent)
@@ -931,7 +932,21 @@ def gen_readonly(seed, idbase=0, nb=("BucketsSize", 16), state="dense", kt="byte
         elif r < 0.70:
             s.op("bulk_get", h=1, ks=[rng.choice(keys + absent) for _ in range(rng.randrange(0, 8))])
         elif r < 0.80:
-            s.op("stats", h=1, filling=(n <= 65536))
+            if state == "empty" or rng.random() < 0.4:
+                # a single statistics call (one walk over one file); on a map that never held a record one
+                # walk per file at most, so that a call which damages the file is followed by the close
+                # and the comparison rather than by a second walk over the damage
+                pool = [w for w in ("kfree", "vfree", "ksize", "vsize", "klen", "vlen", "kcount", "filling")
+                        if not (state == "empty" and ((w in ("ksize", "klen") and "K" in walked) or (w in ("vsize", "vlen") and "V" in walked)))
+                        and not (w == "filling" and n > 65536)]
+                w = rng.choice(pool)
+                if w in ("ksize", "klen"):
+                    walked.add("K")
+                if w in ("vsize", "vlen"):
+                    walked.add("V")
+                s.op("stats", h=1, only=w)
+            else:
+                s.op("stats", h=1, filling=(n <= 65536))
         elif r < 0.86:
             s.op("read_fill_buffer", h=1)
         else:
@@ -982,6 +997,27 @@ def gen_twice(seed, idbase=0, nops=150, nb=("BucketsSize", 32), kt="bytes", bufs
             tail_ops.append(("reads", None, None))
             tail_ops.append(("put", nk, rng.choice(tv[3:6])))
             lastk = nk
+    if same_process:
+        # replica A runs in a process that has already worked on ANOTHER map in another directory (records of
+        # many lengths written, overwritten in place, relocated, deleted, read); replica B runs in a fresh
+        # process: whatever the first one left behind in the process must not reach the files
+        wk = _mk_keys(s, rng, kt, 10)
+        wv = [s.newval(x) for x in (1, 7, 15, 23, 31, 47, 63, 100, 120, 250, 500, 900, 1015, 3000)]
+        s.op("open_db", db=0, dir="dW")
+        s.op("map", h=1, db=0, name="w", kt=kt, params=params)
+        for k in wk:
+            s.op("put", h=1, k=k, v=rng.choice(wv))
+        for _ in range(60):
+            k = rng.choice(wk)
+            s.op("put", h=1, k=k, v=rng.choice(wv))
+            if rng.random() < 0.2:
+                s.op("del", h=1, k=rng.choice(wk))
+            if rng.random() < 0.2:
+                s.op("get", h=1, k=rng.choice(wk))
+        s.op("iter", h=1, flavour="iter")
+        s.op("stats", h=1, filling=True)
+        s.op("dump", h=1)
+        s.op("drop_all")
     for rep, d in (("A", "dA"), ("B", "dB")):
         s.op("open_db", db=0, dir=d)
         s.op("map", h=1, db=0, name="m", kt=kt, params=params)
@@ -1022,7 +1058,7 @@ def gen_twice(seed, idbase=0, nops=150, nb=("BucketsSize", 32), kt="bytes", bufs
                 else:
                     s.op("read_fill_buffer", h=1)
         s.op("dump", h=1)
-        s.op("drop_all" if same_process else "new_process")
+        s.op("new_process")
     s.op("digest", dir="dA", name="m", tag="repA")
     s.op("digest", dir="dB", name="m", tag="repB")
     s.op("note", conj="C18.equal", same=["repA", "repB"])
